@@ -24,6 +24,7 @@ def run(tier, seed):
         common.validate_f(chk, {s: os.path.join(sw, prof, "sweeps_%d.ndjson" % s) for s in (44, 65, 87)}, nproc=6, chunks_per_set=2,
                           key_of=lambda m: "derive-rare:" + m["ev"])
     chk.leg("rare-key search", edge_seeds_searched_per_set=nedge)
+    n += common.behaviours_leg(chk, rel, 90 if tier == "quick" else 1500)
     chk.leg("trace validation (Layer A judge)", events=n,
             what="bytes of derived pk (from generated and from round-tripped sk) equal the generated pk's; verdicts of generated / round-tripped / derived pk agree on valid, bit-flipped, wrong-mode and wrong-message signatures")
     common.mc_leg(chk, "MC_API", tier=tier)
